@@ -20,6 +20,8 @@ pub struct P {
 thread_local! {
 	/// the payload with this tag reports a formatting error from its Debug impl (as a sink that fails would)
 	pub static FAIL_TAG: std::cell::Cell<Option<u32>> = const { std::cell::Cell::new(None) };
+	/// the payload with this tag panics in its Debug impl (user code running inside the lock's Debug impl)
+	pub static PANIC_TAG: std::cell::Cell<Option<u32>> = const { std::cell::Cell::new(None) };
 }
 
 impl Debug for P {
@@ -28,6 +30,9 @@ impl Debug for P {
 		vlock::data_event(false, 0, self.tag, self.ver);
 		if FAIL_TAG.with(|x| x.get()) == Some(self.tag) {
 			return Err(std::fmt::Error);
+		}
+		if PANIC_TAG.with(|x| x.get()) == Some(self.tag) {
+			std::panic::resume_unwind(Box::new(0u8));
 		}
 		write!(f, "P({},{})", self.tag, self.ver)
 	}
